@@ -71,6 +71,7 @@ import (
 type verifApiSlot struct {
 	id       uint64
 	auth     string
+	ended    bool // the driver saw this session end: its DELETE was answered 200, or a QUIT it posted was committed
 	lastBody []byte
 	addr     string
 }
@@ -429,7 +430,11 @@ func (r *verifApiRun) sessions() string {
 		if verifApiAlive(s.id) {
 			alive = 1
 		}
-		l = append(l, fmt.Sprintf("%d.%s.%d.%d", s.id, verifApiHex(s.auth), alive, ircServer.LastPostMessage(robust.Id{Id: s.id})))
+		ended := 0
+		if s.ended {
+			ended = 1
+		}
+		l = append(l, fmt.Sprintf("%d.%s.%d.%d.%d", s.id, verifApiHex(s.auth), alive, ircServer.LastPostMessage(robust.Id{Id: s.id}), ended))
 	}
 	if len(l) == 0 {
 		return "-"
@@ -616,6 +621,12 @@ func (r *verifApiRun) postBody(s *verifApiSlot, body []byte) string {
 	jp := verifApiJSONPost(body)
 	res := r.do("POST", fmt.Sprintf("/robustirc/v1/0x%x/message", s.id), r.sessHdr(s), nil, body, 20*time.Second)
 	tail := r.end(d)
+	if res.status == 200 && strings.Contains(tail, ".irc_from_client.") && jp != "!" {
+		// a committed QUIT ends the session that posted it
+		if data := strings.ToUpper(strings.TrimLeft(verifApiUnhex(strings.SplitN(jp, ".", 2)[0]), " ")); data == "QUIT" || strings.HasPrefix(data, "QUIT ") {
+			s.ended = true
+		}
+	}
 	return fmt.Sprintf("sid=%d|b=%s|jp=%s|status=%d|class=%s|%s|lpm=%d|alive=%v", s.id, verifApiHex(string(body)), jp, res.status,
 		verifApiClass(res.status, res.body), tail, ircServer.LastPostMessage(robust.Id{Id: s.id}), verifApiAlive(s.id))
 }
@@ -848,6 +859,9 @@ func (r *verifApiRun) op(tok string) (obs string) {
 		d := r.begin()
 		res := r.do("DELETE", fmt.Sprintf("/robustirc/v1/0x%x", s.id), r.sessHdr(s), nil, body, 20*time.Second)
 		tail := r.end(d)
+		if res.status == 200 && strings.Contains(tail, ".delete_session.") {
+			s.ended = true
+		}
 		return fmt.Sprintf("D|sid=%d|b=%s|jd=%s|status=%d|class=%s|%s|alive=%v", s.id, verifApiHex(string(body)), verifApiJSONDelete(body),
 			res.status, verifApiClass(res.status, res.body), tail, verifApiAlive(s.id))
 
